@@ -9,6 +9,7 @@
      LResolved e nb  TypedContent.resolved_cache[nb] of schema object e   (sxbasic.py)
      LFactory k      sudsobject.Factory.cache[k]                           (sudsobject.py)
      LMrNodes o / LMrCatalog o   MultiRef.nodes / MultiRef.catalog of the MultiRef object o
+     LProxy c        HttpTransport.proxy of the transport of client c (transport/http.py: send)
      LOther a b      anything else (never touched by the model; observed writes
                      the harness cannot classify land here)
    A MultiRef object is identified by a number: objects created by a call
@@ -22,12 +23,14 @@ Inductive cloc :=
 | LOpt (c : N) | LMsgTx (c : N) | LMsgRx (c : N)
 | LResolved (e : N) (nb : bool) | LFactory (k : N)
 | LMrNodes (o : N) | LMrCatalog (o : N)
+| LProxy (c : N)
 | LOther (a b : N).
 
 Definition cloc_eqb (a b : cloc) : bool :=
   match a, b with
   | LOpt x, LOpt y | LMsgTx x, LMsgTx y | LMsgRx x, LMsgRx y
-  | LFactory x, LFactory y | LMrNodes x, LMrNodes y | LMrCatalog x, LMrCatalog y => x =? y
+  | LFactory x, LFactory y | LMrNodes x, LMrNodes y | LMrCatalog x, LMrCatalog y
+  | LProxy x, LProxy y => x =? y
   | LResolved x p, LResolved y q => (x =? y) && Bool.eqb p q
   | LOther x p, LOther y q => (x =? y) && (p =? q)
   | _, _ => false
@@ -61,7 +64,8 @@ Inductive instr :=
 | IReadOpt (c : N)                   (* build the request: reads the client's options *)
 | IMemo (l : cloc)                   (* x = cache.get(k); if x is None: x = compute(); cache[k] = x *)
 | IWriteTx (c : N)                   (* self.last_sent(soapenv) *)
-| ISend                              (* options.transport.send(request): private *)
+| IProxy (c : N)                     (* HttpTransport.send: self.proxy = self.options.proxy ... u2handlers reads self.proxy *)
+| ISend                              (* urlopener.open(request): private *)
 | IWriteRx (c : N)                   (* self.last_received(replyroot) *)
 | IMrResetNodes (o : N)              (* self.nodes = [] *)
 | IMrResetCatalog (o : N)            (* self.catalog = {} *)
@@ -91,7 +95,7 @@ Section Program.
 
   Definition memo_of (l : cloc) : option cval :=
     match l with
-    | LResolved _ _ | LFactory _ => Some (VNum (mv l))
+    | LResolved _ _ | LFactory _ | LProxy _ => Some (VNum (mv l))
     | _ => None
     end.
 
@@ -113,6 +117,19 @@ Section Program.
                    (mkst rest 0 (args st) (req st) (body st) (refs st) (memos st ++ [mv l]))
           end
       | IWriteTx c => AWrite (LMsgTx c) (VNum (req st)) (set_code st rest)
+      | IProxy c =>
+          (* the assignment stores the proxy setting of the transport's own options: the same
+             value whichever call does it (nobody sets options on a client in use: threads_ok);
+             the later read (u2handlers) always follows the call's own assignment -- should it
+             ever see the cell unset, the assignment is repeated *)
+          match sub st with
+          | O => AWrite (LProxy c) (VNum (mv (LProxy c)))
+                   (mkst (code st) 1 (args st) (req st) (body st) (refs st) (memos st))
+          | _ => ARead (LProxy c) (fun v =>
+                   if is_none v
+                   then mkst (code st) 0 (args st) (req st) (body st) (refs st) (memos st)
+                   else mkst rest 0 (args st) (req st) (body st) (refs st) (memos st))
+          end
       | ISend => ATau (set_code st rest)
       | IWriteRx c => AWrite (LMsgRx c) (VNum (req st + 1)) (set_code st rest)
       | IMrResetNodes o => AWrite (LMrNodes o) (VNodes []) (set_code st rest)
@@ -160,7 +177,7 @@ Record call := mkcall {
 
 Definition call_code (k : call) : list instr :=
   [IReadOpt (c_client k)] ++ map IMemo (c_in k)
-  ++ [IWriteTx (c_client k); ISend; IWriteRx (c_client k)]
+  ++ [IWriteTx (c_client k); IProxy (c_client k); ISend; IWriteRx (c_client k)]
   ++ mr_code (c_mr k) (c_children k) ++ map IMemo (c_out k).
 
 Inductive thread := TCall (k : call) | TSetOpt (c v : N).
@@ -190,6 +207,7 @@ Definition instr_rlocs (i : instr) : list cloc :=
   match i with
   | IReadOpt c => [LOpt c]
   | IMemo m => [m]
+  | IProxy c => [LProxy c]
   | IMrRoot o _ | IMrFinish o => [LMrNodes o]
   | IMrId o _ _ | IMrHref o _ => [LMrCatalog o]
   | _ => []
@@ -198,6 +216,7 @@ Definition instr_rlocs (i : instr) : list cloc :=
 Definition instr_wlocs (i : instr) : list cloc :=
   match i with
   | IMemo m => [m]
+  | IProxy c => [LProxy c]
   | IWriteTx c => [LMsgTx c]
   | IWriteRx c => [LMsgRx c]
   | IMrResetNodes o | IMrRoot o _ => [LMrNodes o]
@@ -211,9 +230,12 @@ Definition fp_of_code (cd : list instr) : fprint cloc :=
                (fun l => existsb (cloc_eqb l) (flat_map instr_wlocs cd)).
 
 Definition is_memo_loc (l : cloc) : bool :=
+  match l with LResolved _ _ | LFactory _ | LProxy _ => true | _ => false end.
+
+Definition is_cache_loc (l : cloc) : bool :=
   match l with LResolved _ _ | LFactory _ => true | _ => false end.
 
-Definition call_wf (k : call) : bool := forallb is_memo_loc (c_in k ++ c_out k).
+Definition call_wf (k : call) : bool := forallb is_cache_loc (c_in k ++ c_out k).
 
 (* ---- when do threads satisfy the footprint condition?  Stated on the
    threads themselves: ti is the reader, tj the writer ---- *)
@@ -260,7 +282,8 @@ Definition cval_eqb (a b : cval) : bool :=
 
 Definition fresh_base : N := 1000000.
 Definition default_mv (l : cloc) : N :=
-  match l with LResolved e nb => 2 * e + (if nb then 2 else 1) | LFactory k => k + 1 | _ => 0 end.
+  match l with LResolved e nb => 2 * e + (if nb then 2 else 1) | LFactory k => k + 1
+  | LProxy c => c + 3 | _ => 0 end.
 Definition store0 : cstore := fun l => match l with LOpt c => VNum (c + 7) | _ => VNone end.
 
 (* --- (1) measured write footprint of one real invocation --- *)
@@ -282,7 +305,7 @@ Record fp_case := mkfp {
    per-call MultiRef object (see call_writes_declared in CallProofs.v) *)
 Definition declared_W (c : N) (l : cloc) : bool :=
   match l with
-  | LMsgTx c' | LMsgRx c' => c' =? c
+  | LMsgTx c' | LMsgRx c' | LProxy c' => c' =? c
   | LResolved _ _ | LFactory _ => true
   | LMrNodes o | LMrCatalog o => fresh_base <=? o
   | _ => false
@@ -298,6 +321,7 @@ Definition write_allowed (c : N) (w : obs_write) : bool :=
   match ow_loc w with
   | LMsgTx c' | LMsgRx c' => c' =? c
   | LResolved _ _ | LFactory _ => ow_empty w && ow_idem w
+  | LProxy c' => (c' =? c) && ow_idem w     (* re-assigned with the same value by every call *)
   | _ => false
   end.
 
@@ -317,7 +341,7 @@ Record sched_case := mksc {
 }.
 
 (* number of steps of a call that misses every memo cell *)
-Definition prog_len (k : call) : nat := length (call_code k) + 2 * length (c_in k ++ c_out k).
+Definition prog_len (k : call) : nat := length (call_code k) + 2 * length (c_in k ++ c_out k) + 1.
 
 Fixpoint plan_sched (calls : list call) (plan : list (nat * N)) : list nat :=
   match plan with
